@@ -3,6 +3,7 @@
 Pre-defined scalar types.
 """
 
+import math
 import re
 import uuid
 from typing import Any, Callable, List, Mapping, Optional, Type, TypeVar, Union
@@ -18,6 +19,15 @@ _ScalarValueNode = Union[
 ]
 
 _ScalarValue = Union[str, int, float, bool, None]
+
+
+def _is_non_finite(value: Any) -> bool:
+    # NaN and +/- Infinity, as numbers or in any spelling float() understands
+    # ("inf", "nan", "1e999"), cannot be represented in a (JSON) response.
+    try:
+        return not math.isfinite(float(value))
+    except (TypeError, ValueError, OverflowError):
+        return False
 
 
 # Shortcut to generate ``parse_literal`` from a simple
@@ -99,6 +109,10 @@ def coerce_float(maybe_float: _ScalarValue) -> float:
     """
     Spec compliant float conversion.
     """
+    if _is_non_finite(maybe_float):
+        raise ValueError(
+            "Float cannot represent non finite value: %s" % maybe_float
+        )
     if maybe_float == "":
         raise ValueError(
             "Float cannot represent non numeric value: (empty string)"
